@@ -7,10 +7,12 @@ predecessor relation (`C12_kahn_*`).  Part B: the same instantiated with the pre
 `C12_cycle_no_change`, `C12_fixpoint_graph`, `C12_fixpoint`, `C12_deterministic`).
 Helper developments: `Lemmas/SortKahn.lean` (the loop), `Lemmas/SortTree.lean` (the tree),
 `Lemmas/SortPos.lean` (positions vs ids), `Lemmas/SortStable.lean` (stability; defines `WellScoped`,
-`OrderedG`), `Lemmas/SortAcyclic.lean` (ordered => acyclic), `Lemmas/SortRename.lean` (renaming).
+`OrderedG`), `Lemmas/SortAcyclic.lean` (ordered => acyclic), `Lemmas/SortRename.lean` (renaming), `Lemmas/SortLifted.lean` (flat cycle => per-graph cycle), `Lemmas/SortLinked.lean` (C11 container).
 -/
 import IrVerif.Lemmas.SortAcyclic
 import IrVerif.Lemmas.SortRename
+import IrVerif.Lemmas.SortLifted
+import IrVerif.Lemmas.SortLinked
 import Mathlib.Data.List.Forall2
 
 namespace IrVerif.Sort
@@ -100,6 +102,27 @@ theorem C12_kahn_stable (n : Nat) (preds : Nat → List Nat)
 theorem C12_relink (cur xs : List Nat) (hc : cur.Nodup) (hp : xs.Perm cur) : relink cur xs = xs :=
   relink_perm hc hp
 
+/-- **C12_relink_refines** (tie to C11/C01): on the pointer-level node container of C11
+    (`Model/LinkedSet.lean`: boxes, root, id->box dict; `LinkedSet.WF` is C11's representation
+    invariant), `extend(xs)` — what step 5 of `Graph.sort` calls — returns normally, keeps the
+    invariant, and leaves as observable sequence (`toList`) exactly `relink (toList s) xs`; when
+    `xs` is an arrangement of exactly the nodes present (what `Graph.sort` passes, `C12_perm`),
+    the sequence afterwards is `xs` itself.  Composes `C11_rep_toList` with `C12_relink`. -/
+theorem C12_relink_refines {s : LinkedSet.LSet} (h : LinkedSet.WF s) (xs : List Nat) :
+    LinkedSet.WF (LinkedSet.apply s (.extend xs)).1 ∧
+    (LinkedSet.apply s (.extend xs)).2 = true ∧
+    LinkedSet.toList (LinkedSet.apply s (.extend xs)).1 = relink (LinkedSet.toList s) xs ∧
+    (xs.Perm (LinkedSet.toList s) → LinkedSet.toList (LinkedSet.apply s (.extend xs)).1 = xs) := by
+  have hnd := linked_toList_nodup h
+  obtain ⟨h1, h2⟩ := LinkedSet.C11_rep_toList h (.extend xs)
+  have hL : LinkedSet.toList (LinkedSet.apply s (.extend xs)).1 = relink (LinkedSet.toList s) xs := by
+    rw [h1]
+    exact spec_extend_L ⟨LinkedSet.toList s, .fwd, .done⟩ hnd xs
+  refine ⟨LinkedSet.C11_rep_step h _, ?_, hL, ?_⟩
+  · rw [h2]; rfl
+  · intro hp
+    rw [hL]; exact C12_relink _ _ hnd hp
+
 /-! ## Part B — the graph tree -/
 
 /-- the encoded object tree is well formed: node ids are distinct, graph ids are distinct -/
@@ -114,14 +137,17 @@ theorem sortModel_some {g : MGraph} {r : List (Nat × List Nat)} (h : sortModel 
   simp only [sortModel] at h
   split at h
   · simp at h
-  · rename_i hlen
+  split at h
+  · simp at h
+  · rename_i _ hlen
     simp only [bne_iff_ne, ne_eq, Decidable.not_not] at hlen
     exact ⟨hlen, (Option.some.inj h).symm⟩
 
-theorem sortModel_none {g : MGraph} :
+theorem sortModel_none {g : MGraph} (hids : ((nodesOf g).map Ent.id).Nodup) :
     sortModel g = none ↔
     (kahn (nodesOf g).length (predsAt (nodesOf g))).length ≠ (nodesOf g).length := by
-  simp only [sortModel]
+  have hs : sharedGraph (nodesOf g) = false := by simp [sharedGraph, hids]
+  simp only [sortModel, hs]
   split <;> simp_all
 
 /-- the new sequence of graph `h` after a successful sort is its bucket -/
@@ -201,16 +227,11 @@ theorem C12_respects (g : MGraph) (hwf : WF g) (r : List (Nat × List Nat))
     a cycle. -/
 theorem C12_cycle_iff (g : MGraph) (hwf : WF g) :
     sortModel g = none ↔ ∃ a, Relation.TransGen (Dep (nodesOf g)) a a := by
-  rw [sortModel_none, C12_kahn_cycle_iff _ _ (predsAt_lt (nodesOf g)), cycle_pos_iff hwf.ids]
-
-/-- the property's own dependency relation inside one graph `h`: `c` (or a node nested in `c`)
-    uses a value produced by `p`, both nodes of `h` -/
-def LiftedDep (h : MGraph) (a b : Nat) : Prop :=
-  ∃ p ∈ h.2, ∃ c ∈ h.2, p.id = a ∧ c.id = b ∧ ∃ u ∈ entsN h.1 c, some a ∈ u.inputs
+  rw [sortModel_none hwf.ids, C12_kahn_cycle_iff _ _ (predsAt_lt (nodesOf g)), cycle_pos_iff hwf.ids]
 
 /-- **C12_cycle_lifted**: if, in some graph of the tree, the property's dependencies ("used by it
-    or by any node nested inside it") contain a cycle, the sort raises.  (The converse for
-    well-scoped trees is not proved here; the oracle checks it on every generated case.) -/
+    or by any node nested inside it", `LiftedDep`, defined in `Lemmas/SortLifted.lean`) contain a
+    cycle, the sort raises.  No scoping hypothesis is needed for this direction. -/
 theorem C12_cycle_lifted (g : MGraph) (hwf : WF g) (h : MGraph) (hh : h ∈ allGraphs g) (x : Nat)
     (hcyc : Relation.TransGen (LiftedDep h) x x) : sortModel g = none := by
   rw [C12_cycle_iff g hwf]
@@ -226,6 +247,18 @@ theorem C12_cycle_lifted (g : MGraph) (hwf : WF g) (h : MGraph) (hh : h ∈ allG
       exact ih.trans (lifted_dep_chain hh hp hc hu huse)
   exact ⟨x, hmono x x hcyc⟩
 
+/-- **C12_cycle_iff_lifted**: for a well-scoped tree, "raises ⇔ the dependencies contain a
+    cycle" in the property's own terms: `Graph.sort` raises exactly when, in some graph of the
+    tree, the relation "is used by it or by any node nested inside it" between the nodes of that
+    graph has a cycle. -/
+theorem C12_cycle_iff_lifted (g : MGraph) (hwf : WF g) (hws : WellScoped g) :
+    sortModel g = none ↔ ∃ h ∈ allGraphs g, ∃ x, Relation.TransGen (LiftedDep h) x x := by
+  constructor
+  · intro hnone
+    exact lifted_cycle_of_dep_cycle hwf.ids hws ((C12_cycle_iff g hwf).1 hnone)
+  · rintro ⟨h, hh, x, hx⟩
+    exact C12_cycle_lifted g hwf h hh x hx
+
 /-- **C12_cycle_no_change**: when the sort raises, the observable node order of every graph is the
     one before the call.  (By construction of the model: the cycle test precedes all re-linking,
     as in the code; that the code really behaves so is checked by the correspondence and the
@@ -234,6 +267,16 @@ theorem C12_cycle_no_change (g : MGraph) (h : (sortEffect g).1 = true) :
     (sortEffect g).2 = graphsOf g := by
   unfold sortEffect at *
   split at h <;> simp_all
+
+/-- **C12_shared_raises**: a tree in which a Graph object is reachable twice (the universe lists a
+    node twice) makes the sort raise and leave every order as it was.  By construction of the
+    model, whose doc comment (`sortModel`) derives this from the code: list `nodes` with duplicates
+    vs dictionaries keyed by node, every node popped at most once, so the length test fails.
+    The correspondence compares it with the real code on generated shared-graph trees. -/
+theorem C12_shared_raises (g : MGraph) (h : ¬ ((nodesOf g).map Ent.id).Nodup) :
+    sortEffect g = (true, graphsOf g) := by
+  have hs : sharedGraph (nodesOf g) = true := by simp [sharedGraph, h]
+  simp [sortEffect, sortModel, hs]
 
 /-- **C12_fixpoint_graph** (per graph, stronger than the property asks): in a well-scoped tree
     whose sort succeeds, every graph that is already in order (`OrderedG`: each node after the
@@ -299,6 +342,9 @@ example : Relation.TransGen (LiftedDep ex2) 0 0 :=
 example : ∀ c, c < 3 → ∀ p ∈ predsAt (nodesOf ex1) c, p < 3 := predsAt_lt (nodesOf ex1)
 example : (kahn 3 (predsAt (nodesOf ex1))) = [2, 1, 0] := by decide
 example : relink [3, 1, 2] [1, 2, 3] = [1, 2, 3] := by decide
+example : LinkedSet.WF LinkedSet.empty := LinkedSet.C11_rep_empty.1
+example : LinkedSet.toList (LinkedSet.apply (LinkedSet.apply LinkedSet.empty (.extend [3, 1, 2])).1
+    (.extend [1, 2, 3])).1 = [1, 2, 3] := by decide
 
 /-- `g0 = [n0, n1, n3]`: `n1` uses `n0` and owns `g1 = [n2, n4]` where `n2` captures `n0` and
     `n4` uses `n2`; `n3` uses `n1` — well scoped and already in order -/
@@ -320,6 +366,12 @@ example : WF ex4 ∧ WellScoped ex4 := ⟨⟨by decide, by decide⟩, by unfold 
 example : OrderedG (1, [MNode.mk 2 [some 0] [], MNode.mk 4 [some 2, some 2] []]) ∧
     ¬ OrderedG ex4 := by unfold OrderedG; decide
 example : sortModel ex4 = some [(0, [0, 1, 3]), (1, [2, 4])] := by decide
+/-- the same body graph `g1 = [n1, n2]` (already in order) as the value of two attributes of `n0` -/
+def ex5 : MGraph :=
+  (0, [MNode.mk 0 [] [(1, [MNode.mk 1 [] [], MNode.mk 2 [some 1] []]),
+                      (1, [MNode.mk 1 [] [], MNode.mk 2 [some 1] []])]])
+example : ¬ ((nodesOf ex5).map Ent.id).Nodup := by decide
+example : sortEffect ex5 = (true, [(0, [0]), (1, [1, 2]), (1, [1, 2])]) := by decide
 example : Function.Injective (fun n : Nat => n + 7) := fun a b h => by simpa using h
 
 end IrVerif.Sort
